@@ -163,6 +163,21 @@ Proof.
   destruct (_ && _); [exact I|exact IH].
 Qed.
 
+Lemma read_difat_sector_fine im sl cur : fine (read_difat_sector im sl cur).
+Proof.
+  unfold read_difat_sector. cbv zeta. destruct (_ <? _).
+  - apply fine_rbind; [apply check_difat_cells_fine|]. intros; exact I.
+  - apply read_sector_u32s_fine.
+Qed.
+
+(* a successful read is a read of the whole sector *)
+Lemma read_difat_sector_ok im sl cur cells :
+  read_difat_sector im sl cur = Ok cells -> read_sector_u32s im sl cur (sl / 4) = Ok cells.
+Proof.
+  unfold read_difat_sector. cbv zeta. destruct (_ <? _); [|exact (fun H => H)].
+  destruct (check_difat_cells _); discriminate.
+Qed.
+
 (* ------------------------------------------------------------------ *)
 (* O1: the DIFAT chain walk.  [4 <= sl] is needed: with sl < 4 the model reads
    zero cells and Panic 801 is reached; sector_len is 512 or 4096. *)
@@ -179,7 +194,8 @@ Proof.
     destruct (_ <? cur); [exact I|].
     destruct (N.leb_spec ns cur); [exact I|].
     destruct (memN cur seen) eqn:Hmem; [exact I|]. apply memN_false in Hmem.
-    apply fine_rbind; [apply read_sector_u32s_fine|]. intros cells Hcells.
+    apply fine_rbind; [apply read_difat_sector_fine|]. intros cells Hcells.
+    apply read_difat_sector_ok in Hcells.
     apply read_sector_u32s_len in Hcells. cbv zeta.
     apply fine_rbind; [apply check_difat_cells_fine|]. intros _ _.
     destruct (nthN cells (sl / 4 - 1)) as [nx|] eqn:Hnth.
